@@ -539,8 +539,8 @@ def compare_line(line, mout, iout, stats):
     if mag:    # magnitude cases: relative tolerance only; sums with cancellation (feature distance, gradients) relative to their terms
         dd = [abs(float(x)) for k in ("D1", "D2", "S") for x in (d.get(k) or []) if not (math.isnan(float(x)) or math.isinf(float(x)))]
         fscale["FD"] = fscale["FB"] = 1e-10 * max(dd + [0.0])
-        ww = [abs(float(x)) for x in (d.get("WI") or []) if not (math.isnan(float(x)) or math.isinf(float(x)))]
-        fscale["WI"] = 1e-10 * max(ww + [0.0])
+        # gradient = sum_j c_ij * (terms of magnitude ~ degree * k / |x|) with cancellation (e.g. a normalised kernel in one dimension is constant)
+        fscale["WI"] = 1e-11 * 32 * info["n2"] * max([abs(float(x)) for x in info["c"]] + [1.0]) * max(dd + [0.0]) * math.ldexp(1.0, -info["e"])
     if info["kind"] == "V" and F and len(F) >= 4:
         tr = info["tree"]; degparam = any(tk == "POLY" and tr[i + 3] == "1" for i, tk in enumerate(tr))
         stats["flags"] = stats.get("flags", 0) + 1
@@ -698,7 +698,7 @@ def main():
     stats = {"exact": 0, "tol": 0}; mon = {}; dis = []; nmon = 0; qmode = 0; checks_run = 0
     mstat = {"lines": 0, "groups": len(mgroups), "norm_root_lines": 0, "norm_numbers_bit_for_bit": 0, "one_division_order_differs": 0, "one_division_order_nonfinite_or_zero": 0,
              "scaling_relation_lines": 0, "scaling_relation_exact_lines": 0, "max_abs_log2_kxx": 0.0}
-    pairref = {}; pending = []
+    pairref = {}
     for ci, c in enumerate(cases):
         (b, rcb, eb), (a, rca, ea) = io[ci], mo[ci]
         if rca != 0 or not a: raise RuntimeError("model driver failed on case %d: %s\n%s" % (ci, ea, c))
@@ -715,8 +715,7 @@ def main():
                 mstat["scaling_relation_lines"] += 1; mstat["scaling_relation_exact_lines"] += 1 if mi["exact"] else 0
                 sm_ = monitor_scaling(cases[grp[0]], io[grp[0]][0][0], c, b[0])
                 for m_ in sm_: pairref[(ci, m_[0])] = grp[0]
-                pending += [(ci, m_) for m_ in sm_ if m_[0] == "derivative-scaling"]
-                msgs = msgs + [m_ for m_ in sm_ if m_[0] != "derivative-scaling"]
+                msgs = msgs + sm_
         if msgs:
             nmon += 1
             for chk, fld, msg in msgs:
@@ -744,7 +743,7 @@ def main():
     # per check: report the smallest failing case (shrunk); cases whose kernel expression contains all classes of an
     # already reported culprit count as explained by it; repeat with the rest (distinct culprits get distinct reports)
     kinds = {}; PAIRCHK = ("magnitude-scaling", "derivative-scaling")
-    def report_check(chk, entries, registered_only=False):
+    def report_check(chk, entries):
         rest = sorted(entries); nrep = 0
         while rest and nrep < 4:
             _, _, ci, msg, fld = rest[0]; pair = chk in PAIRCHK
@@ -767,18 +766,11 @@ def main():
             rest = [r for r in rest if r not in expl]
             key = "%s:%s:%s:%s n1=%d n2=%d" % (chk, flds, cls, inf.get("sub", inf["kind"]), inf["n1"], inf["n2"])
             what = "spec monitor fails on the implementation [%s] (%s, %d cases): %s" % (chk, cls, len(set(r[2] for r in expl)), "; ".join(m[2] for m in m2[:3]))
-            if registered_only and ck.match_known(key) is None and not os.environ.get("VERIF_C05_RAISE_DERIVATIVE_SCALING"):
-                # reported to the lead, not yet in known_findings.json: recorded in the evidence and the log, raised once it is registered
-                ck.notes.setdefault("unregistered_findings", []).append({"key": key, "case": text.strip().split("\n"), "what": what})
-                log("[C05] FINDING (reported, not registered in known_findings.json; not raised): key=%s\n  case: %s\n  %s" % (key, text.strip().replace("\n", "\n        "), what[:600]))
-                nrep += 1; continue
             cf = ck.write_replay("case_%s_%d.txt" % (re.sub(r"[^a-z]", "", chk), nrep), text)
             ck.violation(key, {"case_file": cf, "case": text.strip().split("\n") if pair else small, "implementation_output": so[0], "model_output": sm[0], "monitor": [m[2] for m in m2],
                                "failing_cases_of_this_kind": len(set(r[2] for r in expl)), "replay_cmd": "python3 tools/c05.py --replay %s" % cf}, what)
             kinds[chk + ":" + cls] = len(set(r[2] for r in expl)); nrep += 1
     for chk in sorted(mon): report_check(chk, mon[chk])
-    if pending:
-        report_check("derivative-scaling", [(True, len(cases[ci]), ci, m_[2], m_[1]) for ci, m_ in pending], registered_only=True)
     if dis:
         ci, diffs = dis[0]
         cf = ck.write_replay("case_correspondence.txt", cases[ci] + "\n")
